@@ -55,7 +55,8 @@ def run(ctx):
             ctx.report("spec:MCSerializer:C13_NoBlock", "TLC: liveness property C13_NoBlock violated in mutable/MCSerializer (%s)" % kind,
                        replay={"kind": "tlc-counterexample", "tlc_output": str(e)[-20000:]})
     # non-vacuity: the wrong mechanisms must be caught by the same properties
-    for mech, expect in (("immediate", "C13_Mutex"), ("noresume", "C13_NoIdleWait")):
+    negatives = (("immediate", "C13_Mutex"),) if ctx.quick else (("immediate", "C13_Mutex"), ("noresume", "C13_NoIdleWait"))
+    for mech, expect in negatives:
         r = ctx.mc("mutable/MCSerializer", MC_CFG % dict(N=2, Kind="dir", Mech=mech,
                                                          live=""),
                    name="MC negative %s" % mech, expect_ok=False, timeout=3000)
